@@ -333,6 +333,29 @@ fn decoders(seed: u64) {
             u16case(&[a, b, a]);
         }
     }
+    // the same question put to the model (D utf16 lines): boundary units, pairs, random surrogate-heavy texts
+    let mut modelcase = |v: &[u16], out: &mut std::io::StdoutLock, bump: &Bump| {
+        let b = BString::from_utf16_in(v, bump);
+        let s = String::from_utf16(v);
+        let bs = match &b { Ok(x) => hex(x.as_bytes()), Err(_) => "err".into() };
+        let ss = match &s { Ok(x) => hex(x.as_bytes()), Err(_) => "err".into() };
+        let units: String = v.iter().map(|u| format!("{:04x}", u)).collect();
+        writeln!(out, "D utf16 {} | {} | {}", if units.is_empty() { "-".to_string() } else { units }, if bs.is_empty() { "-".to_string() } else { bs }, if ss.is_empty() { "-".to_string() } else { ss }).unwrap();
+    };
+    let edge = [0x0000u16, 0x0041, 0x007F, 0x0080, 0x07FF, 0x0800, 0xD7FF, 0xD800, 0xD801, 0xDBFF, 0xDC00, 0xDC01, 0xDFFF, 0xE000, 0xFFFD, 0xFFFF];
+    modelcase(&[], &mut out, &bump);
+    for &a in &edge {
+        modelcase(&[a], &mut out, &bump);
+        for &b in &edge {
+            modelcase(&[a, b], &mut out, &bump);
+            modelcase(&[b, a, b], &mut out, &bump);
+        }
+    }
+    for _ in 0..1500 {
+        let n = rng.usize_below(9);
+        let v: Vec<u16> = (0..n).map(|_| match rng.usize_below(5) { 0 => 0xD800 + (rng.next() % 0x400) as u16, 1 => 0xDC00 + (rng.next() % 0x400) as u16, 2 => *rng.pick(&edge), 3 => (rng.next() % 0x80) as u16, _ => rng.next() as u16 }).collect();
+        modelcase(&v, &mut out, &bump);
+    }
     writeln!(out, "N utf16_cases {}", 65536 + 49 * 3).unwrap();
     out.flush().unwrap();
 }
